@@ -219,6 +219,7 @@ def check_chunking_long(rep, fb, rule_prefix="buf.chunk"):
             Fc.add_ge(n1)
             Fc.add_ge(BS - 1 - pos - n1)
             Fc.add_eq(n1 + n2 - n)
+            Fc.rewrites["n2"] = n - n1
             Fc.add_ge(n2 - (BS - pos - n1))
             T.declare_var("d1", n1)
             T.declare_var("d2", n2)
@@ -299,7 +300,7 @@ def check_init(rep, fb, rule_prefix="buf.init"):
             ip, ps = run_plain(fb, cr, b, ["c", "IV"], base_ctx(), base_facts())
             r = ps[0]["ret"]
             of = [f for f in ref.state_fields()][0]
-            want = ref.init[ref.fmap[of]]
+            want = ref.init_leaf(of)
             ok = r[0] == "struct" and values_equal(r[2]["iv"], want, ps[0]["F"]) and r[2]["pos"][0] == "size" and r[2]["pos"][1] == ZERO
             rep.ob(rule_prefix, inst, ok, "initial state == block-level CFB initial keystream block, position 0", loc_of(b), computed=show_value(r), expected=show_value(want))
         except (Undecided, KeyError, IndexError) as e:
@@ -344,6 +345,8 @@ def check_roundtrip(rep, fb, rule_prefix="inv.buf"):
                             lenv[a.t[0][0][0]] = b
                     for gfact in F.ges:
                         F2.add_ge(gfact)
+                    # one decomposition of the common length: the decryptor's symbols are the encryptor's
+                    F2.rewrites = {k_: (v_ if k_ == "__generated__" else v_.subst(lenv)) for k_, v_ in F2.rewrites.items()}
                 back = T.bsubst(q["cells"]["data"][1], {"data": c}, lenv, F2)
                 T.declare_var("data", n)
                 rep.ob(rule_prefix + ".out", "%s/%s" % (inst, kind), T.bequal(back, T.bvar("data"), F2), "BufDecryptor::decrypt(BufEncryptor::encrypt(data)) normalises to data", loc, computed=T.bshow(back), expected="data")
